@@ -97,11 +97,11 @@ def run(ctx):
     per = ctx.budget(15, 700)
     for cls in kits:
         for _ in range(per):
-            check_validate(ctx, {"cls": asm.cls_name(cls), "word": malformed_for(rng, cls, kits)})
+            ctx.guard(check_validate, {"cls": asm.cls_name(cls), "word": malformed_for(rng, cls, kits)})
     for enz in asm.pick_enzymes(rng, ctx.budget(200, 8000)):
         kind = rng.choice("MV")
         cls = asm.cls_by_name("generic:{}:{}".format(kind, enz))
-        check_validate(ctx, {"cls": "generic:{}:{}".format(kind, enz), "word": malformed_for(rng, cls, kits)})
+        ctx.guard(check_validate, {"cls": "generic:{}:{}".format(kind, enz), "word": malformed_for(rng, cls, kits)})
     check_3prime(ctx)
     for enz in asm.pick_enzymes(rng, ctx.budget(200, 8000)):
         g = asm.gen_wellformed(rng, enz, rng.randint(1, 4))
@@ -113,13 +113,13 @@ def run(ctx):
                 e["word"] = malformed_for(rng, asm.cls_by_name(e["cls"]), kits)
         if rng.random() < 0.2:
             case["mods"].append(case["mods"][0])
-        check_assembly(ctx, case)
+        ctx.guard(check_assembly, case)
 
 
 def check_case(ctx, case):
     if "enzyme3" in case:
         check_3prime(ctx)
     elif "vector" in case:
-        check_assembly(ctx, case)
+        ctx.guard(check_assembly, case)
     else:
-        check_validate(ctx, case)
+        ctx.guard(check_validate, case)
